@@ -127,7 +127,7 @@ impl<const B: Word> Repr<B> {
             }
 
             let has_sign = (negative || f.sign_plus()) as usize;
-            let has_radix_point = if exp > 0 {
+            let has_radix_point = if exp >= 0 {
                 // if there's no fractional part, the result has the floating point
                 // only if the precision is set to be non-zero
                 f.precision().unwrap_or(0) > 0
